@@ -132,10 +132,10 @@ let run (args : string list) : string =
   | "tok" :: rest -> tok rest
   | "c2n" :: r :: c :: _ -> bytes_answer (Col26.coordinate_to_name (n_of_string r, n_of_string c))
   | "cn2n" :: n :: _ -> bytes_answer (Col26.column_number_to_name (n_of_string n))
-  (* the A1 scanner and get_dimension as of HEAD are modelled locally (SharedFmla.sf_...) *)
-  | "grc" :: h :: _ -> pair_answer (sf_get_row_column (bytes_of_hex h))
+  (* the A1 scanner and get_dimension: Col26.v (resynced to the hardened code) *)
+  | "grc" :: h :: _ -> pair_answer (Col26.get_row_column (bytes_of_hex h))
   | "gdim" :: h :: _ ->
-    (match sf_get_dimension (bytes_of_hex h) with
+    (match Col26.get_dimension (bytes_of_hex h) with
      | Ok ((a, b), (c, d)) ->
        Printf.sprintf "ok:%s,%s,%s,%s" (string_of_n a) (string_of_n b) (string_of_n c) (string_of_n d)
      | Err _ -> "err" | Panic -> "panic" | OutOfFuel -> "fuel")
